@@ -44,6 +44,20 @@ ADD = [
     dict(id="strategy-new-hook", file="flumine/strategy/strategy.py", old="    def finish(self, flumine) -> None:\n        # called before flumine ends",
          new="    def process_order_update(self, market, order) -> None:\n        return\n\n    def finish(self, flumine) -> None:\n        # called before flumine ends"),
     dict(id="new-event-type", file="flumine/events/events.py", old="# both\n", new="class HeartbeatEvent(BaseEvent):\n    EVENT_TYPE = EventType.CUSTOM_EVENT\n    QUEUE_TYPE = QueueType.LOGGING\n\n\n# both\n"),
+    dict(id="exposure-copy-then-append", file="flumine/markets/blotter.py",
+         old="        for order in self.strategy_selection_orders(strategy, *lookup[1:]) + (\n            [new_order] if new_order is not None else []\n        ):",
+         new="        orders = list(self.strategy_selection_orders(strategy, *lookup[1:]))\n        if new_order is not None:\n            orders.append(new_order)\n        for order in orders:"),
+    dict(id="control-call-timed", file="flumine/controls/__init__.py", old="        self._validate(order, package_type)",
+         new="        logger.debug('control %s', self.NAME)\n        self._validate(order, package_type)"),
+    dict(id="cleared-skip-foreign", file="flumine/markets/blotter.py",
+         old="            order_id = cleared_order.customer_order_ref[STRATEGY_NAME_HASH_LENGTH + 1 :]",
+         new="            if not cleared_order.customer_order_ref:\n                continue\n            order_id = cleared_order.customer_order_ref[STRATEGY_NAME_HASH_LENGTH + 1 :]"),
+    dict(id="min-size-local", file="flumine/clients/simulatedclient.py",
+         old="        if self.account_details:\n            return currency_parameters[self.account_details.currency_code][\n                \"min_bet_size\"",
+         new="        if self.account_details:\n            code = self.account_details.currency_code\n            return currency_parameters[code][\n                \"min_bet_size\""),
+    dict(id="clock-read-into-local", file="flumine/strategy/runnercontext.py",
+         old="        self.datetime_last_reset = datetime.datetime.utcnow()",
+         new="        now = datetime.datetime.utcnow()\n        self.datetime_last_reset = now"),
     dict(id="type-annotations", file="flumine/simulation/simulatedorder.py", old="        _traded_size = traded_size / 2\n", new="        _traded_size: float = traded_size / 2\n"),
 ]
 
